@@ -90,7 +90,11 @@ static void w_device(int open)
     V_ASSUME(d->all_services != 0);
     V_ASSUME(d->vbi_api == VBI_API_V4L1 || d->vbi_api == VBI_API_V4L2);
     for (i = 0; i < W_NBUF; i++) {
+#if W_MAXLINES == 1
+      PROXY_QUEUE *q = malloc(sizeof(PROXY_QUEUE));                  /* == QUEUE_ELEM_SIZE(q, 1), written so that CBMC types the object */
+#else
       PROXY_QUEUE *q = malloc(QUEUE_ELEM_SIZE(q, W_MAXLINES));
+#endif
 #ifdef W_FRAME_DATA                                    /* frame contents symbolic (C18); irrelevant for the C19 obligations */
       in_bytes(q, QUEUE_ELEM_SIZE(q, W_MAXLINES));
 #else
@@ -170,6 +174,17 @@ static void w_queue(void)
   PROXY_DEV *d = &proxy.dev[0];
   unsigned i, j; unsigned cur[3];
   for (i = 0; i < 3; i++) cur[i] = in_u8();
+  /* CUR0..CUR2 (build time): cursor of client i concrete (index of the frame it is at; >= NQ: none) - keeps the whole
+     pointer structure of the queue concrete, which the list walking loops of the daemon need to terminate in symex */
+#ifdef CUR0
+  cur[0] = CUR0;
+#endif
+#ifdef CUR1
+  cur[1] = CUR1;
+#endif
+#ifdef CUR2
+  cur[2] = CUR2;
+#endif
   if (!W_dev0_open) return;
   for (j = 0; j < W_NBUF; j++) {
     if (j < NQ) { if (j + 1 < NQ) W_q[j]->p_next = W_q[j + 1]; }
